@@ -323,6 +323,68 @@ CHECKS["C17"] = dict(
     technique="Coq proof of the loop's fixpoint condition + fix-twice validation", design_ref="§21",
 )
 
+CHECKS["C15"] = dict(
+    category="proof",
+    text=("Coq theorems C15_transforms_case_only / C15_consistent_policy_choice / C15_fix_changes_only_case / C15_single_replace_frame prove for "
+          "every token list, option list, ignore predicate, targeting and number of fix-loop passes that under the policies consistent, upper, "
+          "lower, capitalise, pascal, camel the model of CP01._handle_segment (reused by CP02-CP05) keeps the number and kinds of tokens, changes "
+          "targeted tokens only in ASCII letter case and leaves untargeted ones identical; C15_snake_case_only_refuted / C15_fix_snake_refuted "
+          "exhibit aB -> a_b (F13) and C15_fix_any_policy_case_and_underscores bounds snake to case+underscores. Tied by exhaustive correspondence "
+          "(all strings <=5 over {a,B,1,_,space}; all token sequences <=3 over a word pool x 11 rule/policy pairs; random + malformed) and by "
+          "checking every fix the real linter made against the model; monitored end to end: each CP rule x each policy on fixtures of all 28 "
+          "dialects + mutations, token-wise input/output comparison."),
+    note=("Trusted: Coq kernel/vm_compute, hand model Model/Caps.v (ASCII case functions; pascal/camel exact for all code points), the sqlfluff "
+          "lexer used to tokenise. Which tokens a rule targets is abstract in the model (C15_frozen_tokens_unchanged_partial states the missing "
+          "hypothesis) and is checked only by the monitor (open findings F13, F23, F24; the CP05 comment defect was repaired). No axioms."),
+    technique="Coq proof over hand model + exhaustive small-scope correspondence + translation validation of real fixes + end-to-end token monitor",
+    design_ref="§19",
+)
+CHECKS["C23"] = dict(
+    category="proof",
+    text=("PARTIAL (which anchor a rule reports is not modelled). Coq theorem C23_position_record_exact, on the line/column model proved and "
+          "correspondence-checked under C31: the machine-readable position record of a source range is consistent (line/col are the conversion of "
+          "the offsets), lies in the file, identifies the first character of the range, and start line <= end line. Checked on every violation of "
+          "real lint runs (all rules; fixtures of every dialect, mutations incl. unparsable/unlexable text, generated Jinja / python / "
+          "placeholder sources): within the file, equal to the anchor's source start, literal anchors' source text equals the anchor text, "
+          "offsets vs line/col; and through the CLI in json / yaml / github-annotation-native / sarif formats, which must agree. Finding F12 "
+          "(fatal TMP errors at line 0 / column 0) was found this way and repaired."),
+    note=("Trusted: Coq kernel, Model/LineCol.v (C31 correspondence), the oracle in harness/props/c23.py, json/yaml libraries. No axioms."),
+    technique="Coq proof of the position record over the C31 model + position monitor on API and CLI outputs", design_ref="§27",
+)
+
+CHECKS["C32"] = dict(
+    category="proof",
+    text=("PARTIAL. Coq theorem C32_memoised_state_transparent: state that survives between operations in the form of memo tables (the cached config "
+          "loaders, grammar caches) is invisible for EVERY history of requests provided the memoised function depends only on its key, and "
+          "C32_refuted shows the proviso is needed -- so repeatability reduces to 'inputs do not change between operations', the read-only half. "
+          "Both halves are checked on real histories: seeded random sequences of lint / parse / render over a file pool (nested configs for three "
+          "dialects and four templaters, Jinja blocks and macros, noqa, disable_noqa_except, files failing to template / lex / parse) in one "
+          "process, every result compared with the same operation in a fresh process; bytes, mtimes, directory listing and write-mode opens "
+          "are checked around the API operations and around the CLI commands lint (serial and 2 processes), parse and render."),
+    note=("Trusted: Coq kernel, Model/ParseOpt.v cache model, snapshot/open interception. The lexer's class-level block tracker is exercised by the "
+          "histories (Jinja blocks, failing files), not modelled. No axioms."),
+    technique="Coq proof that memoised state is history-transparent + history runs vs fresh processes + file-system snapshots", design_ref="§36",
+)
+
+CHECKS["C09"] = dict(
+    category="proof",
+    text=("Coq theorems: C09_placeholder_render / _replacement / _slices_tile prove for every source, context and sorted non-overlapping match list "
+          "that the placeholder templater outputs the source with exactly the matched spans replaced by the configured value or the kept name "
+          "(quotes kept, positional styles numbered from 1) and that its slices tile source and output; C09_dot_hack_correct_partial / "
+          "C09_valid_renders_partial prove, for arbitrary values and format oracles, that the python templater's regex rewrite followed by str.format "
+          "equals the documented semantics on the format strings described by safe_list; four _refuted theorems (escaped brace = F4, conversion on a "
+          "dotted field, whitespace in its spec, adjacent field swallowed) show the full statement false. Models tied by correspondence to re.sub, "
+          "CPython's formatter_parser / str.format, render_func and PlaceholderTemplater.process (exhaustive small scope, fixed grid, seeded random, "
+          "malformed stream, fake-regex span lists); an independent string.Formatter arbiter and a by-construction placeholder oracle run end to end "
+          "on the real templaters for all 12 KNOWN_STYLES. Open findings F4, F4b, F27; F26 repaired."),
+    note=("Trusted: Coq kernel/vm_compute; hand models Model/PyFormat.v, Model/Placeholder.v (under correspondence); CPython 3.12 str.format / "
+          "string.Formatter as arbiter; format(value, spec), repr/str/ascii and attribute/item lookup as recorded oracle tables; regex.finditer as oracle "
+          "(real matches shipped; the 12 style regexes are not modelled). PythonTemplater's slicing heuristics are monitored, not modelled; "
+          "`ignore = templating` fallback path not covered. No axioms."),
+    technique="Coq proof over hand models + exhaustive small-scope / random correspondence with CPython and sqlfluff + arbiter monitor on the real templaters",
+    design_ref="§13",
+)
+
 NOT_YET = "no check built yet in this round (planned: see DESIGN.md section for this property)"
 
 
